@@ -56,7 +56,7 @@ def u_convert_numpy(W, sk):
     SL.check_unchanged(W, "convert_to_dict", snaps)
 
 
-def _rand_system(W, strided=True, zero_dim_flow=False):
+def _rand_system(W, strided=True, zero_dim_flow=False, mixed_items=False):
     """concrete system with awkward names and (optionally) non-contiguous value arrays"""
     import numpy as np
     from flodym.dimensions import Dimension, DimensionSet
@@ -70,6 +70,9 @@ def _rand_system(W, strided=True, zero_dim_flow=False):
     R = Dimension(name="Region", letter="r", items=["EU 27", "rest (world)", "A=>B"][: rng.choice([1, 2, 3])])
     # (str-typed items that look like numbers: a CSV file carries no types)
     P = Dimension(name="Product", letter="p", items=rng.choice([["bus", "car, small"], ["1000", "3000"]])[: rng.choice([1, 2])], dtype=str)
+    if mixed_items:
+        # an untyped dimension whose items mix numbers and text (in-memory forms only: a CSV file cannot tell 0 from "0")
+        P = Dimension(name="Product", letter="p", items=[0, 1, "2+"][: rng.choice([2, 3])])
     dims = DimensionSet(dim_list=[T, R, P])
     procs = make_processes(["sysenv", "fabrication & co.", "in use (fleet)"])
 
@@ -115,7 +118,7 @@ def u_export_bounded(W, sk):
     from flodym.export.helper import to_valid_file_name
     from flodym.flodym_arrays import FlodymArray
 
-    mfa = _rand_system(W)
+    mfa = _rand_system(W, mixed_items=(sk["form"] in ("pandas", "pickle") and W.rng.random() < 0.5))
     before = {n: np.array(f.values, copy=True) for n, f in mfa.flows.items()}
     before_s = {n: [np.array(a.values, copy=True) for a in (s.stock, s.inflow, s.outflow)] for n, s in mfa.stocks.items()}
 
@@ -136,8 +139,11 @@ def u_export_bounded(W, sk):
                     ok = True
                     for idx in np.ndindex(*f.values.shape):
                         lab = tuple(dm.items[i] for dm, i in zip(f.dims.dim_list, idx))
-                        v = df.loc[lab if len(lab) > 1 else lab[0], "value"]
-                        ok = ok and float(v) == float(f.values[idx])
+                        try:
+                            v = df.loc[lab if len(lab) > 1 else lab[0], "value"]
+                            ok = ok and float(v) == float(f.values[idx])
+                        except (KeyError, TypeError, ValueError):
+                            ok = False  # no (unique) row under these labels
                     W.prove(f"pandas.flow[{n}].every_entry_under_its_labels", ok and len(df) == f.values.size)
                     same_back(f"pandas.flow[{n}]", df, f)
                 for n, s in mfa.stocks.items():
